@@ -38,18 +38,19 @@ Notation ctx_ok := (ctx_ok bound).
 
 (* `local function V<fv>(ps) <body> end`: the closure joins the world, its name the callable functions; the
    description d records its code, its cells and its closure environments *)
-Lemma rel_define_function fl W sc e st E stL fv ps ks body g k scout bc ctx c c2 l :
+Lemma rel_define_function fl W sc e st E stL fv ps ks rk body g k bc ctx c c2 l :
   rel pv sv bound u fl W sc e st E stL ->
   fresh_id pv sv bound fl sc fv = true ->
-  params_ok pv sv bound ((fv, KF ks KP) :: fl) sc ps = true -> length ks = length ps ->
-  frag_stmts pv sv bound (snd (bind_scope ps ks sc ((fv, KF ks KP) :: fl))) k (fst (bind_scope ps ks sc ((fv, KF ks KP) :: fl))) body = Some scout ->
+  params_ok pv sv bound ((fv, KF ks rk) :: fl) sc ps = true -> length ks = length ps ->
+  fbody_check (frag_stmts pv sv bound (snd (bind_scope ps ks sc ((fv, KF ks rk) :: fl))) k (fst (bind_scope ps ks sc ((fv, KF ks rk) :: fl))))
+              (fun fl1 sc1 x => frag_fexpr pv sv bound fl1 k sc1 x) k body rk = true ->
   lower_fbody (statement g) (expression g) body ctx c = Ok (bc, c2) ->
   ucovers u bc -> bound <= c -> lut_ok bound l c c2 -> E_free E c c2 ->
   let E1 := sset (fmt_var fv) (s_ncell stL) E in
-  let d := mkFdyn fv ps ks body sc ((fv, KF ks KP) :: fl) g k scout bc ctx c c2 l
+  let d := mkFdyn fv ps ks rk body sc ((fv, KF ks rk) :: fl) g k bc ctx c c2 l
                   (length (SyltSem.cells st)) (length (SyltSem.clos st)) (def_env fv e st)
                   (s_ncell stL) (s_nclo stL) E1 in
-  rel pv sv bound u ((fv, KF ks KP) :: fl) (world_add W d) sc (def_env fv e st) (def_state fv ps body e st)
+  rel pv sv bound u ((fv, KF ks rk) :: fl) (world_add W d) sc (def_env fv e st) (def_state fv ps body e st)
       E1 (lua_def_state stL E1 ps (fbody u d)).
 Proof.
   intros (Hfs & W1 & Hs1 & Hrel0) Hfresh Hpok Hlks Hfb Hlow Hub Hbc Hlut HEf E1 d.
@@ -61,7 +62,7 @@ Proof.
     destruct Hs1 as (_ & HF & _). auto. }
   destruct (fresh_id_inv _ _ _ _ _ _ Hfresh) as (Hnin & Hnpv & Hnsv & Hfvb).
   pose proof (fresh_id_fl _ _ _ _ _ _ Hfresh) as Hnfl.
-  set (fl' := (fv, KF ks KP) :: fl) in *.
+  set (fl' := (fv, KF ks rk) :: fl) in *.
   set (stL2 := lua_def_state stL E1 ps (fbody u d)).
   assert (Hold : forall p, (p < s_ncell stL)%positive -> get_cell stL2 p = get_cell stL p)
     by (intros p Hp'; apply lua_def_old; exact Hp').
@@ -97,7 +98,7 @@ Proof.
     cbn [d fd_pf] in Hq. pose proof (wf_alloc _ _ Hwf _ _ Hq). lia. }
   (* the static facts about the new function *)
   assert (Hstatic : fstatic pv sv bound u d).
-  { constructor; cbn [d fd_var fd_params fd_pk fd_body fd_sc fd_fl fd_g fd_k fd_scout fd_code fd_c fd_c' fd_lut fd_ef fd_Ef].
+  { constructor; cbn [d fd_var fd_params fd_pk fd_rk fd_body fd_sc fd_fl fd_g fd_k fd_code fd_c fd_c' fd_lut fd_ef fd_Ef].
     - exact Hlow.
     - exact Hfb.
     - exact Hlks.
@@ -487,25 +488,25 @@ Proof.
       destruct s; try discriminate Hfd. destruct value; try discriminate Hfd. rewrite frag_stmts_fun in Hfrag.
       match type of Hfrag with (if ?b then _ else _) = _ => destruct b eqn:Hc; [|discriminate Hfrag] end.
       apply andb_prop in Hc as [Hc Hfb]. apply andb_prop in Hc as [Hfr Hpok].
-      set (ps := param_ids params) in *. set (ks := param_kinds params) in *. set (fl' := (var, KF ks KP) :: fl) in *.
-      destruct (frag_stmts pv sv bound (snd (bind_scope ps ks sc fl')) k (fst (bind_scope ps ks sc fl')) body) as [scout|] eqn:Hfbody; [|discriminate Hfb].
+      set (ps := param_ids params) in *. set (ks := param_kinds params) in *. set (rk := kind_of_ty ret) in *. set (fl' := (var, KF ks rk) :: fl) in *.
+      rename Hfb into Hfbody.
       assert (Hlks : length ks = length ps) by (unfold ks, ps, param_kinds, param_ids; rewrite !map_length; reflexivity).
       destruct g as [|[|g2]]; [cbn in Hy; discriminate Hy | cbn in Hy; discriminate Hy |].
       cbn [statement] in Hy. rewrite definition_fun in Hy. fold ps in Hy. mon Hy. fresh_all. rename a0 into bc.
       destruct n as [|[|n2]]; [cbn in Hev; inversion Hev; subst; destruct Hint | cbn in Hev; inversion Hev; subst; destruct Hint |].
       rewrite exec_def_fun in Hev. fold ps in Hev.
       apply ucovers_cons in Huy as [_ Huy]. apply ucovers_app in Huy as [Hubc _].
-      destruct (L_fb_all pv sv bound u _ g2 k body ctx (c + 1) bc c1 _ scout l Hm0 Hfbody) as (bb & l1 & Hsb).
+      destruct (L_fb_all pv sv bound u _ g2 k body rk ctx (c + 1) bc c1 _ l Hm0 Hfbody) as (bb & l1 & Hsb).
       pose proof Hsb as (Hemb & Hcc1 & Hfr1 & Hnlb).
       destruct (fresh_id_inv _ _ _ _ _ _ Hfr) as (Hnin & Hnpv & Hnsv & Hvb).
       pose proof (fresh_id_fl _ _ _ _ _ _ Hfr) as Hnfl.
       destruct (L_stmts_all pv sv bound u fl' (S (S g2)) k ss ctx c1 ys c' sc (sc', flr) l1 Hys Hfrag) as (_ & _ & (_ & Hc1c' & _)).
       assert (Hlut1 : lut_ok bound l (c + 1) c1) by (eapply lut_ok_sub; [exact Hlut | lia | lia]).
       assert (HEf1 : E_free E (c + 1) c1) by (eapply E_free_sub; [exact HEf | lia | lia]).
-      pose proof (rel_define_function pv sv bound u fl W sc e st E stL var ps ks body g2 k scout bc ctx (c + 1) c1 l
+      pose proof (rel_define_function pv sv bound u fl W sc e st E stL var ps ks rk body g2 k bc ctx (c + 1) c1 l
                   Hrel Hfr Hpok Hlks Hfbody Hm0 Hubc ltac:(lia) Hlut1 HEf1) as Hrel1.
       set (E1 := sset (fmt_var var) (s_ncell stL) E) in *.
-      set (d := mkFdyn var ps ks body sc fl' g2 k scout bc ctx (c + 1) c1 l (length (SyltSem.cells st)) (length (SyltSem.clos st))
+      set (d := mkFdyn var ps ks rk body sc fl' g2 k bc ctx (c + 1) c1 l (length (SyltSem.cells st)) (length (SyltSem.clos st))
                        (def_env var e st) (s_ncell stL) (s_nclo stL) E1) in *.
       change (SimDefs.rel pv sv bound u fl' (world_add W d) sc (def_env var e st) (def_state var ps body e st) E1 (lua_def_state stL E1 ps (fbody u d))) in Hrel1.
       assert (Hbb : bb = fbody u d) by (unfold fbody; cbn [d fd_lut fd_code]; apply (Emits_block_fun u l bc bb l1 Hemb)).
@@ -587,10 +588,10 @@ Proof.
 Qed.
 
 (* the body block after a prefix that ended normally *)
-Lemma fb_pre fl1 W1 sc sc1 e e1 E E1 stL stL1 b1 b2 r st' :
+Lemma fb_pre rk fl1 W1 sc sc1 e e1 E E1 stL stL1 b1 b2 r st' :
   ExecS E b1 stL (ROk (E1, SigNormal) stL1) -> wsub W W1 -> sext pv fl sc e e1 -> incl sc sc1 -> keep fl sc E E1 ->
   (s_ncell stL <= s_ncell stL1)%positive -> incl fl fl1 ->
-  fb_post pv sv bound u fl1 W1 sc1 e1 E1 stL1 b2 r st' -> fb_post pv sv bound u fl W sc e E stL (b1 ++ b2) r st'.
+  fb_post pv sv bound u fl1 W1 rk sc1 e1 E1 stL1 b2 r st' -> fb_post pv sv bound u fl W rk sc e E stL (b1 ++ b2) r st'.
 Proof.
   intros Hx1 Hw1 Hs1 Hi1 Hk1 Hn1 Hfl Hp.
   assert (Hfn : incl (fnames fl) (fnames fl1)) by (unfold fnames; apply incl_map; exact Hfl).
@@ -611,9 +612,9 @@ Proof.
 Qed.
 
 (* the body block stopped by a prefix *)
-Lemma fb_app_stop {A} sc e E stL b1 b2 (x : A) r st' :
+Lemma fb_app_stop {A} rk sc e E stL b1 b2 (x : A) r st' :
   match r with SyltSem.RVal _ => False | _ => True end ->
-  fb_post pv sv bound u fl W sc e E stL b1 r st' -> fb_post pv sv bound u fl W sc e E stL (b1 ++ b2) r st'.
+  fb_post pv sv bound u fl W rk sc e E stL b1 r st' -> fb_post pv sv bound u fl W rk sc e E stL (b1 ++ b2) r st'.
 Proof.
   intros Hr Hp. destruct r as [v|o|[| |v]]; cbn [fb_post] in *; try exact I; try contradiction.
   - destruct Hp as (ev & stL2 & Hx2 & Htr). exists ev, stL2. split; [apply ExecS_app_stop; [exact Hx2 | intros []] | exact Htr].
@@ -623,20 +624,29 @@ Qed.
 
 Lemma P_fb_zero : P_fb pv sv bound u fl W O.
 Proof.
-  intros g k body ctx c code c' e st r st' sc scout l E stL F Hev. cbn in Hev. inversion Hev; subst. intros. contradiction.
+  intros g k body rk ctx c code c' e st r st' sc l E stL F Hev. cbn in Hev. inversion Hev; subst. intros. contradiction.
 Qed.
 
-Lemma P_fb_succ n :
+(* the body of a function with a plain result *)
+Lemma P_fb_succ_plain n :
   (forall fl' W', P_eval pv sv bound u fl' W' n) -> (forall fl' W', P_blk pv sv bound u fl' W' n) ->
-  P_fb pv sv bound u fl W (S n).
+  forall g k body ctx c code c' e st r st' sc l E stL F,
+    SyltSem.block_value (S n) e body st = (r, st') ->
+    lower_fbody (statement g) (expression g) body ctx c = Ok (code, c') ->
+    fbody_check (frag_stmts pv sv bound fl k sc) (fun fl1 sc1 x => frag_fexpr pv sv bound fl1 k sc1 x) k body KP = true ->
+    ucovers u code -> ctx_ok l F E c c' ->
+    rel sc e st E stL -> interesting r ->
+    exists b l', cshape u l code b l' c c' /\ fb_post pv sv bound u fl W KP sc e E stL b r st'.
 Proof.
-  intros IHe IHb g k body ctx c code c' e st r st' sc [sc' flr] l E stL F Hev Hlow Hfrag Hu Hctx Hrel Hint.
+  intros IHe IHb g k body ctx c code c' e st r st' sc l E stL F Hev Hlow Hcheck Hu Hctx Hrel Hint.
   pose proof Hctx as [Hbc Hlut HFo HEf].
-  destruct (L_fb_all pv sv bound u fl g k body ctx c code c' sc (sc', flr) l Hlow Hfrag) as (b0 & l0 & Hs0).
+  destruct (L_fb_all pv sv bound u fl g k body KP ctx c code c' sc l Hlow Hcheck) as (b0 & l0 & Hs0).
+  cbn [fbody_check] in Hcheck.
+  destruct (frag_stmts pv sv bound fl k sc body) as [[sc' flr]|] eqn:Hfrag; [|discriminate Hcheck]. clear Hcheck.
   pose proof Hs0 as (_ & Hcc' & _).
   (* an abrupt end is outside what the post-condition says *)
   assert (Hab : r = SyltSem.RAbrupt SyltSem.CBreak \/ r = SyltSem.RAbrupt SyltSem.CContinue ->
-                exists b l', cshape u l code b l' c c' /\ fb_post pv sv bound u fl W sc e E stL b r st').
+                exists b l', cshape u l code b l' c c' /\ fb_post pv sv bound u fl W KP sc e E stL b r st').
   { intros [-> | ->]; exists b0, l0; (split; [exact Hs0 | exact I]). }
   clear Hs0.
   cbn [SyltSem.block_value] in Hev. unfold lower_fbody in Hlow.
@@ -649,7 +659,7 @@ Proof.
     destruct k as [|k]; [discriminate|]. cbn in Hfrag. inversion Hfrag; subst sc' flr.
     eexists _, _. split; [apply cshape_nil|]. cbn [fb_post].
     exists fl, W, E, SigNormal, stL, sc, e.
-    splits; [apply XS_nil | left; split; reflexivity | exact Hrel | apply wsub_refl | apply sext_refl | apply incl_refl | apply keep_refl | lia].
+    splits; [apply XS_nil | left; split; [reflexivity | split; reflexivity] | exact Hrel | apply wsub_refl | apply sext_refl | apply incl_refl | apply keep_refl | lia].
   - assert (Hbody : body = rev init_rev ++ [last]) by (rewrite <- (rev_involutive body), Hrev; reflexivity).
     mon Hlow. apply lower_list_ok in Hm as (cs & Hmi & ->).
     pose proof Hfrag as Hfrag0.
@@ -658,7 +668,7 @@ Proof.
     (* the last statement is not an expression: the value is nil *)
     assert (Hgen : SyltSem.bind (SyltSem.exec_block n e (rev init_rev ++ [last])) (fun _ : senv => SyltSem.ret (SV Values.VLuaNil)) st = (r, st') ->
                    statement g last ctx c0 = Ok (a0, c') ->
-                   exists (b : block) (l' : alut), cshape u l (concat cs ++ a0) b l' c c' /\ fb_post pv sv bound u fl W sc e E stL b r st').
+                   exists (b : block) (l' : alut), cshape u l (concat cs ++ a0) b l' c c' /\ fb_post pv sv bound u fl W KP sc e E stL b r st').
     { intros Hev' Hst.
       pose proof (mapM_snoc _ _ _ _ _ _ _ _ Hmi Hst) as Hmall.
       assert (Hcc : concat (cs ++ [a0]) = concat cs ++ a0) by (rewrite concat_app; cbn [concat]; rewrite app_nil_r; reflexivity).
@@ -679,7 +689,7 @@ Proof.
         as (b1 & l1 & Hs1 & W1 & E1 & stL1 & F1 & Hx1 & Hf1 & Hrel1 & Hw1 & _ & Hk1 & Hse1 & Hinc1). rewrite Hcc in Hs1.
       eexists _, _. split; [exact Hs1|].
       exists flr, W1, E1, SigNormal, stL1, sc', e1.
-      splits; [exact Hx1 | left; split; reflexivity | exact Hrel1 | exact Hw1 | exact Hse1 | exact Hinc1 | exact Hk1 | apply (wr_ncell _ _ _ _ _ _ _ Hf1)]. }
+      splits; [exact Hx1 | left; split; [reflexivity | split; reflexivity] | exact Hrel1 | exact Hw1 | exact Hse1 | exact Hinc1 | exact Hk1 | apply (wr_ncell _ _ _ _ _ _ _ Hf1)]. }
     destruct last; try (apply Hgen; assumption).
     (* the last statement is an expression: its value is returned *)
     clear Hgen.
@@ -703,7 +713,7 @@ Proof.
          destruct (IHb fl W g k _ ctx c _ c0 e st _ st' sc sc1 fl1 l E stL F He1 Hmi Hfi Hui Hctxi Hrel Hint)
            as (b1 & l1 & Hs1 & Hp1). destruct (Hrest l1) as (b2 & l2 & Hs2 & _).
          eexists _, _. split; [eapply cshape_app; [exact Hs1|]; eapply cshape_app; [exact Hs2 | apply Hret]|].
-         cbn [blk_post] in Hp1. apply (fb_app_stop sc e E stL b1 _ tt); [exact I | eapply fb_of_exit; exact Hp1]. }
+         cbn [blk_post] in Hp1. apply (fb_app_stop KP sc e E stL b1 _ tt); [exact I | eapply fb_of_exit; exact Hp1]. }
     2: { inversion Hev; subst.
          destruct (IHb fl W g k _ ctx c _ c0 e st _ st' sc sc1 fl1 l E stL F He1 Hmi Hfi Hui Hctxi Hrel Hint)
            as (b1 & l1 & Hs1 & Hp1). destruct (Hrest l1) as (b2 & l2 & Hs2 & _).
@@ -719,7 +729,7 @@ Proof.
          destruct (IHe fl1 W1 g k'' value ctx c0 code_v rv c' e1 st1 _ st' sc1 l1 E1 stL1 F1 He2 Hm Hfe Huv Hctx1 Hrel1 Hint)
            as (b2 & l2 & Hs2 & _ & _ & Hp2). cbn [eval_post] in Hp2.
          eexists _, _. split; [eapply cshape_app; [exact Hs1|]; eapply cshape_app; [exact Hs2 | apply Hret]|].
-         eapply (fb_pre fl1 W1 sc sc1 e e1 E E1 stL stL1); try eassumption.
+         eapply (fb_pre KP fl1 W1 sc sc1 e e1 E E1 stL stL1); try eassumption.
          eapply fb_of_exit. eapply exit_app; [exact Hp2 | apply N.le_refl]. }
     2: { inversion Hev; subst.
          destruct (IHe fl1 W1 g k'' value ctx c0 code_v rv c' e1 st1 _ st' sc1 l1 E1 stL1 F1 He2 Hm Hfe Huv Hctx1 Hrel1 Hint)
@@ -748,6 +758,107 @@ Proof.
       unfold fnames in *. apply in_map_iff in Hw as (x & <- & Hx). apply in_map. apply Hfn. exact Hx.
     + pose proof (wr_ncell _ _ _ _ _ _ _ Hf2).
       destruct Hx3 as (_ & _ & _ & _ & _ & _ & Hn3 & _). lia.
+Qed.
+
+
+Lemma split_last_inv {A} : forall (l : list A) i y, split_last l = Some (i, y) -> l = i ++ [y].
+Proof.
+  induction l as [|x t IH]; intros i y H; cbn [split_last] in H; [discriminate|].
+  destruct (split_last t) as [[i' y']|] eqn:Ht.
+  - inversion H; subst. cbn [app]. f_equal. apply IH. reflexivity.
+  - inversion H; subst. destruct t as [|x' t']; [reflexivity|]. cbn [split_last] in Ht. destruct (split_last t') as [[? ?]|]; discriminate Ht.
+Qed.
+
+(* the body of a function that returns a function: statements that cannot leave it, then the function-valued expression *)
+Lemma P_fb_succ_fun n ka kr :
+  (forall fl' W', P_farg pv sv bound u fl' W' n) -> (forall fl' W', P_blk pv sv bound u fl' W' n) ->
+  forall g k body ctx c code c' e st r st' sc l E stL F,
+    SyltSem.block_value (S n) e body st = (r, st') ->
+    lower_fbody (statement g) (expression g) body ctx c = Ok (code, c') ->
+    fbody_check (frag_stmts pv sv bound fl k sc) (fun fl1 sc1 x => frag_fexpr pv sv bound fl1 k sc1 x) k body (KF ka kr) = true ->
+    ucovers u code -> ctx_ok l F E c c' ->
+    rel sc e st E stL -> interesting r ->
+    exists b l', cshape u l code b l' c c' /\ fb_post pv sv bound u fl W (KF ka kr) sc e E stL b r st'.
+Proof.
+  intros IHF IHb g k body ctx c code c' e st r st' sc l E stL F Hev Hlow Hcheck Hu Hctx Hrel Hint.
+  pose proof Hctx as [Hbc Hlut HFo HEf].
+  cbn [fbody_check] in Hcheck.
+  destruct (split_last body) as [[init last]|] eqn:Hsl; [|discriminate Hcheck].
+  destruct last; try discriminate Hcheck.
+  apply andb_prop in Hcheck as [Hc1 Hc3]. apply andb_prop in Hc1 as [Hsimple Hne].
+  destruct (frag_stmts pv sv bound fl k sc init) as [[sc1 fl1]|] eqn:Hfi; [|discriminate Hc3].
+  destruct (frag_fexpr pv sv bound fl1 k sc1 value) as [K|] eqn:Hfe; [|discriminate Hc3]. apply kind_eqb_eq in Hc3. subst K.
+  apply split_last_inv in Hsl. subst body.
+  cbn [SyltSem.block_value] in Hev. unfold lower_fbody in Hlow. rewrite rev_app_distr in Hev, Hlow. cbn [rev app] in Hev, Hlow.
+  rewrite rev_involutive in Hev, Hlow.
+  mon Hlow. apply lower_list_ok in Hm as (cs & Hmi & ->). mon Hm0. destruct a as [code_v rv]. cbn [fst snd] in *.
+  apply ucovers_app in Hu as [Hui Hul]. apply ucovers_app in Hul as [Huv Hur].
+  assert (Hcrv : 1 <= count_of u rv) by (eapply Hur; [left; reflexivity | left; reflexivity]).
+  assert (Hrest : forall l0, exists b2 l2, cshape u l0 code_v b2 l2 c0 c' /\ c0 <= rv /\ rv < c')
+    by (intros lx; apply (L_fexpr_all pv sv bound u fl1 g k value _ ctx c0 code_v rv c' sc1 lx Hm Hfe)).
+  destruct (Hrest l) as (_ & _ & (_ & Hc0' & _) & _).
+  destruct (L_stmts_all pv sv bound u fl g k init ctx c cs c0 sc (sc1, fl1) l Hmi Hfi) as (_ & _ & (_ & Hcc0 & _)).
+  assert (Hret : forall l0, cshape u l0 [IReturn rv] (fst (agen_one u l0 (IReturn rv))) l0 c' c')
+    by (intros lx; apply cshape_plain; [lia | reflexivity | reflexivity | reflexivity]).
+  pose proof (frag_stmts_flincl pv sv bound _ _ _ _ _ _ Hfi) as Hfn.
+  assert (Hctxi : ctx_ok l F E c c0) by (eapply ctx_sub; [exact Hctx | lia | lia]).
+  (* nothing leaves the body early *)
+  assert (Hnoab : noab r).
+  { eapply noab_bind; [exact Hev | intros a0 st0 H0; eapply simple_init_noab; eassumption |].
+    intros e0 st0 _ H0. cbv beta in H0. eapply noexit_fexpr_noab; eassumption. }
+  unfold SyltSem.bind at 1 in Hev.
+  destruct (SyltSem.exec_block n e init st) as [[e1|o|cc] st1] eqn:He1.
+  3: { inversion Hev; subst. destruct Hnoab. }
+  2: { inversion Hev; subst.
+       destruct (IHb fl W g k _ ctx c _ c0 e st _ st' sc sc1 fl1 l E stL F He1 Hmi Hfi Hui Hctxi Hrel Hint)
+         as (b1 & l1 & Hs1 & Hp1). destruct (Hrest l1) as (b2 & l2 & Hs2 & _).
+       eexists _, _. split; [eapply cshape_app; [exact Hs1|]; eapply cshape_app; [exact Hs2 | apply Hret]|].
+       cbn [blk_post fb_post] in *. destruct Hp1 as (rl & Hx1 & (ev & stL1 & -> & Htr)).
+       exists ev, stL1. split; [apply ExecS_app_stop; [exact Hx1 | intros []] | exact Htr]. }
+  destruct (IHb fl W g k _ ctx c _ c0 e st _ st1 sc sc1 fl1 l E stL F He1 Hmi Hfi Hui Hctxi Hrel I)
+    as (b1 & l1 & Hs1 & W1 & E1 & stL1 & F1 & Hx1 & Hf1 & Hrel1 & Hw1 & HFn1 & Hk1 & Hse1 & Hinc1).
+  assert (Hctx1 : ctx_ok l1 F1 E1 c0 c') by (eapply (ctx_after_blk bound u); eassumption).
+  pose proof (wr_ncell _ _ _ _ _ _ _ Hf1) as Hn1.
+  destruct (SyltSem.eval n e1 value st1) as [[v_|o|cc] st2] eqn:He2.
+  3: { inversion Hev; subst. destruct Hnoab. }
+  2: { inversion Hev; subst.
+       destruct (IHF fl1 W1 g k value _ ctx c0 code_v rv c' e1 st1 _ st' sc1 l1 E1 stL1 F1 He2 Hm Hfe Huv Hcrv Hctx1 Hrel1 Hint)
+         as (b2 & l2 & Hs2 & _ & _ & Hp2). destruct Hp2 as (rl & Hx2 & (ev & stL2 & -> & Htr)).
+       eexists _, _. split; [eapply cshape_app; [exact Hs1|]; eapply cshape_app; [exact Hs2 | apply Hret]|].
+       exists ev, stL2. split; [|exact Htr].
+       eapply ExecS_app; [exact Hx1|]. apply ExecS_app_stop; [exact Hx2 | intros []]. }
+  inversion Hev; subst r st'. clear Hev.
+  destruct (IHF fl1 W1 g k value _ ctx c0 code_v rv c' e1 st1 _ st2 sc1 l1 E1 stL1 F1 He2 Hm Hfe Huv Hcrv Hctx1 Hrel1 I)
+    as (b2 & l2 & Hs2 & _ & _ & W2 & E2 & stL2 & F2 & Hw2 & Hok2 & Hrel2 & Hd2).
+  pose proof Hok2 as (Hx2 & Hf2 & _ & _ & Hk2).
+  eexists _, _. split; [eapply cshape_app; [exact Hs1|]; eapply cshape_app; [exact Hs2 | apply Hret]|].
+  cbn [adenotes] in Hd2. destruct Hd2 as (d & HdW & Hdk & -> & Hld).
+  destruct (Hld E2 stL2 (fut_refl _ _ _) (r_wf _ _ _ _ _ _ _ _ _ _ _ Hrel2) (r_linv _ _ _ _ _ _ _ _ _ _ _ Hrel2)) as (st3 & _ & Hm3 & Hx3).
+  exists fl1, W2, E2, (SigReturn [VFun (fd_fid d)]), st3, sc1, e1. splits.
+  + eapply ExecS_app; [exact Hx1|]. eapply ExecS_app; [exact Hx2|].
+    cbn [agen_one fst]. apply XS_stop; [|intros []].
+    eapply Exec_do. apply ExecBlock_of_ExecS; [|repeat constructor | intros []].
+    apply XS_stop; [|intros []]. apply Exec_return. apply EvalList_one. exact Hm3.
+  + right. exists (VFun (fd_fid d)). split; [reflexivity|]. cbn [arel]. exists d. auto.
+  + eapply rel_cells_ext; eassumption.
+  + eapply wsub_trans; eassumption.
+  + exact Hse1.
+  + exact Hinc1.
+  + intros w Hw. rewrite Hk2; [apply Hk1; exact Hw|].
+    destruct Hw as [Hw|Hw]; [left; apply Hinc1; exact Hw | right].
+    unfold fnames in *. apply in_map_iff in Hw as (x & <- & Hx). apply in_map. apply Hfn. exact Hx.
+  + pose proof (wr_ncell _ _ _ _ _ _ _ Hf2).
+    destruct Hx3 as (_ & _ & _ & _ & _ & _ & Hn3 & _). lia.
+Qed.
+
+Lemma P_fb_succ n :
+  (forall fl' W', P_eval pv sv bound u fl' W' n) -> (forall fl' W', P_farg pv sv bound u fl' W' n) ->
+  (forall fl' W', P_blk pv sv bound u fl' W' n) ->
+  P_fb pv sv bound u fl W (S n).
+Proof.
+  intros IHe IHF IHb g k body rk. destruct rk as [|ka kr].
+  - apply P_fb_succ_plain; assumption.
+  - apply P_fb_succ_fun; assumption.
 Qed.
 
 End Body.
@@ -812,9 +923,11 @@ Lemma caller_back fl W W1 sc e st E stL fl2 Wc2 sc2 e2 E2 st' stL' :
   fscope fl W e E -> wsub W W1 -> rel0 pv sv bound u fl W1 sc e st E stL ->
   rel pv sv bound u fl2 Wc2 sc2 e2 st' E2 stL' -> wsub (callee_world W1 E stL) Wc2 ->
   (s_ncell stL <= s_ncell stL')%positive ->
-  rel pv sv bound u fl W sc e st' E stL' /\ call_frame bound E stL stL'.
+  exists W3, wsub W W3 /\ (forall d, w_D Wc2 d -> w_D W3 d) /\ rel0 pv sv bound u fl W3 sc e st' E stL' /\
+             call_frame bound E stL stL'.
 Proof.
   intros Hfs Hs1 Hrel (_ & W2 & Hs2 & Hrel2) Hsc Hnc.
+  assert (HD2 : forall d, w_D Wc2 d -> w_D W2 d) by (destruct Hs2 as (_ & _ & HD & _); exact HD).
   pose proof (wsub_trans _ _ _ Hsc Hs2) as (HsR & HsF & HsD & HsP & Hspc).
   pose proof Hrel as [Hb Hfb Hp Hpb HpE HpG Hwf Ht Hli HW].
   pose proof Hrel2 as [Hb' Hfb' Hp' Hpb' HpE' HpG' Hwf' Ht' Hli' HW'].
@@ -823,12 +936,12 @@ Proof.
   assert (Htemp : forall t p, bound <= t -> sget (fmt_var t) E = Some p -> w_P W2 p (get_cell stL p)).
   { intros t p Hbt Hq. apply HsP. right. exists t. auto. }
   set (W3 := mkWorld (w_R W2) (w_F W2) (w_D W2) (w_P W1) (w_pc W2)).
-  split.
-  - split; [exact Hfs|]. exists W3. split.
-    { destruct Hs1 as (A & B & C & D & F). unfold wsub, W3. cbn.
-      split; [intros c p Hr; apply HsR, A, Hr|]. split; [intros c p d Hf; apply HsF, B, Hf|].
-      split; [intros d Hd; apply HsD, C, Hd|]. split; [exact D | congruence]. }
-    constructor.
+  exists W3. split.
+  { destruct Hs1 as (A & B & C & D & F). unfold wsub, W3. cbn.
+    split; [intros c p Hr; apply HsR, A, Hr|]. split; [intros c p d Hf; apply HsF, B, Hf|].
+    split; [intros d Hd; apply HsD, C, Hd|]. split; [exact D | congruence]. }
+  split; [exact HD2|]. split.
+  - constructor.
     + exact Hb.
     + exact Hfb.
     + unfold W3. cbn [w_pc]. rewrite Hspc. exact Hp.
@@ -858,6 +971,24 @@ Proof.
         -- intros c Hr. exact (H5 c p _ Hr Hpr).
         -- intros c d Hf. exact (H7 c p d _ Hf Hpr).
   - split; [exact Hnc|]. intros t p Hbt Hq. apply (H8 p _ (Htemp t p Hbt Hq)).
+Qed.
+
+(* the relation in the caller, in a world that knows the result of the call if it is a closure *)
+Lemma rel_with_result fl W W3 Wc sc e st E stL K v lv :
+  fscope fl W e E -> wsub W W3 -> rel0 pv sv bound u fl W3 sc e st E stL -> (forall d, w_D Wc d -> w_D W3 d) ->
+  arel Wc K v lv ->
+  exists W1, wsub W W1 /\ arel W1 K v lv /\ rel pv sv bound u fl W1 sc e st E stL.
+Proof.
+  intros Hfs Hs Hrel HD Hv. destruct K as [|ka kr].
+  - exists W. split; [apply wsub_refl|]. split; [exact Hv|]. split; [exact Hfs|]. exists W3. split; assumption.
+  - cbn [arel] in Hv. destruct Hv as (d & Hd & Hdk & -> & ->).
+    exists (world_addD W d). split; [apply wsub_addD|]. split.
+    + cbn [arel]. exists d. split; [right; reflexivity | auto].
+    + split.
+      * intros f K Hin. destruct (Hfs f K Hin) as (c & p & d' & A & B & C & D & F). exists c, p, d'.
+        split; [exact A | split; [exact B | split; [exact C | split; [exact D | left; exact F]]]].
+      * exists W3. split; [|exact Hrel]. destruct Hs as (A & B & C & D & F). unfold wsub, world_addD. cbn.
+        split; [exact A|]. split; [exact B|]. split; [intros d0 [Hd0| ->]; [apply C; exact Hd0 | apply HD; exact Hd]|]. split; assumption.
 Qed.
 
 (* ------------------------------------------------------------------ a call, by the simulation of the body *)
@@ -907,7 +1038,7 @@ Proof.
   assert (Hctx : ctx_ok bound (fd_lut d) [] E1 (fd_c d) (fd_c' d)).
   { constructor; [apply (fs_bound _ _ _ _ _ Hst) | intros t Ht; apply (fs_lut _ _ _ _ _ Hst); exact Ht | intros t [] |].
     intros t Ht. rewrite Ht1 by (pose proof (fs_bound _ _ _ _ _ Hst); lia). apply (fs_Efree _ _ _ _ _ Hst). exact Ht. }
-  destruct (IHfb _ Wb (fd_g d) (fd_k d) (fd_body d) (fd_ctx d) (fd_c d) (fd_code d) (fd_c' d) ec st1 rb st2 _ (fd_scout d) (fd_lut d) E1 stL1 []
+  destruct (IHfb _ Wb (fd_g d) (fd_k d) (fd_body d) (fd_rk d) (fd_ctx d) (fd_c d) (fd_code d) (fd_c' d) ec st1 rb st2 _ (fd_lut d) E1 stL1 []
                  Hbv (fs_lower _ _ _ _ _ Hst) (fs_frag _ _ _ _ _ Hst) (fs_ucov _ _ _ _ _ Hst) Hctx Hrel1' Hintb)
     as (b & l' & Hs & Hpost).
   assert (Hb : b = fbody u d) by (unfold fbody; apply (Emits_block_fun u _ _ _ l'); apply Hs).
@@ -918,19 +1049,23 @@ Proof.
   3: { (* an early return *)
     inversion Hap; subst r st'. clear Hap.
     destruct Hpost as (fl2 & W2 & sc2 & e2 & E2 & E' & stL' & lv & Hx & Hvl & Hrel2 & Hws & Hse & Hinc2 & Hk & Hnc2).
-    destruct (caller_back fl W W1 sc e st E stL fl2 W2 sc2 e2 E2 st2 stL' Hfs Hs1 Hrel Hrel2 (wsub_trans _ _ _ Hwb Hws) ltac:(lia)) as [Hrelc Hcf].
-    exists [lv], stL'. splits; [| exact Hvl | exact Hrelc | exact Hcf].
+    destruct (caller_back fl W W1 sc e st E stL fl2 W2 sc2 e2 E2 st2 stL' Hfs Hs1 Hrel Hrel2 (wsub_trans _ _ _ Hwb Hws) ltac:(lia))
+      as (W3 & Hw3 & HD3 & Hrel3 & Hcf).
+    destruct (rel_with_result fl W W3 W2 sc e st2 E stL' (fd_rk d) v lv Hfs Hw3 Hrel3 HD3 Hvl) as (Wr & Hwr & Hvr & Hrelr).
+    exists Wr, [lv], stL'. splits; [exact Hwr | | exact Hvr | exact Hrelr | exact Hcf].
     eapply (Call_closure (fd_fid d) _ lvs stL E1 stL1 E' [lv] stL' HcloL Hbl').
     cbn [c_body]. apply ExecBlock_of_ExecS; [exact Hx | exact Hnl | intros []]. }
   - (* the body ends: back in the caller *)
     inversion Hap; subst r st'. clear Hap.
     destruct Hpost as (fl2 & W2 & E' & sg & stL' & sc2 & e2 & Hx & Hsg & Hrel2 & Hws & Hse & Hinc2 & Hk & Hnc2).
-    destruct (caller_back fl W W1 sc e st E stL fl2 W2 sc2 e2 E' st2 stL' Hfs Hs1 Hrel Hrel2 (wsub_trans _ _ _ Hwb Hws) ltac:(lia)) as [Hrelc Hcf].
-    destruct Hsg as [[-> ->]|(lv & -> & Hvl)].
-    + exists [], stL'. splits; [|constructor | exact Hrelc | exact Hcf].
+    destruct (caller_back fl W W1 sc e st E stL fl2 W2 sc2 e2 E' st2 stL' Hfs Hs1 Hrel Hrel2 (wsub_trans _ _ _ Hwb Hws) ltac:(lia))
+      as (W3 & Hw3 & HD3 & Hrel3 & Hcf).
+    destruct Hsg as [(-> & -> & Hrk)|(lv & -> & Hvl)].
+    + exists W, [], stL'. splits; [apply wsub_refl | | rewrite Hrk; constructor | split; [exact Hfs | exists W3; split; assumption] | exact Hcf].
       eapply (Call_closure_normal (fd_fid d) _ lvs stL E1 stL1 E' stL' HcloL Hbl').
       cbn [c_body]. apply ExecBlock_of_ExecS; [exact Hx | exact Hnl | intros []].
-    + exists [lv], stL'. splits; [| exact Hvl | exact Hrelc | exact Hcf].
+    + destruct (rel_with_result fl W W3 W2 sc e st2 E stL' (fd_rk d) v lv Hfs Hw3 Hrel3 HD3 Hvl) as (Wr & Hwr & Hvr & Hrelr).
+      exists Wr, [lv], stL'. splits; [exact Hwr | | exact Hvr | exact Hrelr | exact Hcf].
       eapply (Call_closure (fd_fid d) _ lvs stL E1 stL1 E' [lv] stL' HcloL Hbl').
       cbn [c_body]. apply ExecBlock_of_ExecS; [exact Hx | exact Hnl | intros []].
   - inversion Hap; subst r st'. clear Hap.
@@ -951,7 +1086,7 @@ Variable u : counts.
 
 Definition P_all_at (n : nat) (fl : list (N * kind)) (W : world) : Prop :=
   P_eval pv sv bound u fl W n /\ P_exec pv sv bound u fl W n /\ P_blk pv sv bound u fl W n /\
-  P_bv pv sv bound u fl W n /\ P_fb pv sv bound u fl W n /\ P_apply pv sv bound u fl W n.
+  P_bv pv sv bound u fl W n /\ P_fb pv sv bound u fl W n /\ P_apply pv sv bound u fl W n /\ P_farg pv sv bound u fl W n.
 
 Lemma P_apply_zero fl W : P_apply pv sv bound u fl W O.
 Proof.
@@ -960,18 +1095,19 @@ Qed.
 
 (* by induction on the fuel of the reference interpreter, for every set of callable functions and every world:
    a call runs the body of the callee, in the world of the callee, with less fuel; a statement list runs in worlds
-   that grow with the local functions it defines *)
+   that grow with the local functions it defines; a function-valued expression may add a closure to the world *)
 Theorem P_all n : forall fl W, P_all_at n fl W.
 Proof.
   induction n as [|n IH]; intros fl W.
   - split; [apply P_eval_zero|]. split; [apply P_exec_zero|]. split; [apply P_blk_zero|].
-    split; [apply P_bv_zero|]. split; [apply P_fb_zero | apply P_apply_zero].
-  - destruct (IH fl W) as (IHe & IHs & IHss & IHb & IHf & IHa).
+    split; [apply P_bv_zero|]. split; [apply P_fb_zero|]. split; [apply P_apply_zero | apply P_farg_zero].
+  - destruct (IH fl W) as (IHe & IHs & IHss & IHb & IHf & IHa & IHx).
     split; [apply P_eval_succ; [assumption | assumption | apply P_ecall_succ; intros W'; apply (IH fl W')]|]. split; [apply P_exec_succ; assumption|].
     split; [apply P_blk_succ; intros fl' W'; apply (IH fl' W')|].
     split; [apply P_bv_succ; [intros fl' W'; apply (IH fl' W') | assumption]|].
     split; [apply P_fb_succ; intros fl' W'; apply (IH fl' W')|].
-    apply P_apply_succ. intros fl' W'. apply (IH fl' W').
+    split; [apply P_apply_succ; intros fl' W'; apply (IH fl' W')|].
+    apply P_farg_succ; intros W'; apply (IH fl W').
 Qed.
 
 End All.
